@@ -69,12 +69,38 @@ def parseCp (sds : Array (Subdomain × (Nat → Bool))) (j : Json) : R Coupling 
   if lam.length != nm then throw "lam length mismatch"
   if ppm.any (fun (r, c, _) => r ≥ sp.nf || c ≥ nm) then throw "Ppm index out of range"
   if psm.any (fun (r, c, _) => r ≥ ss.nc || c ≥ nm) then throw "Psm index out of range"
-  let upwind := (fieldD j "upwind" (Json.bool false)) == Json.bool true
-  let b ← if upwind then pure (upwindNeu sp.nc sp.D neu) else do
-    let bt ← field j "B" >>= jList jTrip
-    if bt.any (fun (r, c, _) => r ≥ sp.nf || c ≥ sp.nf) then throw "B index out of range"
-    let bm := mapOf bt
-    pure (look bm)
+  let coded := match fieldD j "coded" (Json.str "") with
+    | .str c => c
+    | _ => ""
+  let flags (k : String) : R (Nat → Bool) := do
+    let l ← fNats j k
+    if l.length != sp.nf then throw s!"flag vector {k} has the wrong length"
+    let a := l.toArray
+    pure (bit a)
+  let rats (k : String) : R (Nat → Rat) := do
+    let l ← fRats j k
+    if l.length != sp.nf then throw s!"vector {k} has the wrong length"
+    let a := l.toArray
+    pure (rd a)
+  let b ← match coded with
+    | "upwind" => pure (upwindNeu sp.nc sp.D neu)
+    | "tpfa" => do
+      let bnd ← flags "bnd"
+      let ne ← flags "neu"
+      let td ← rats "tdir"
+      pure (tpfaBoundFlux sp.nc sp.D bnd ne td)
+    | "adtpfa" => do
+      let en ← flags "extNeu"
+      let ed ← flags "extDir"
+      let ib ← flags "intb"
+      let tf ← rats "tf"
+      pure (adTpfaBound true sp.nc sp.D en ed ib tf)
+    | "" => do
+      let bt ← field j "B" >>= jList jTrip
+      if bt.any (fun (r, c, _) => r ≥ sp.nf || c ≥ sp.nf) then throw "B index out of range"
+      let bm := mapOf bt
+      pure (look bm)
+    | c => throw s!"unknown coded boundary matrix {c}"
   let pm := mapOf ppm
   let sm := mapOf psm
   let la := lam.toArray
@@ -109,7 +135,8 @@ def run (j : Json) : R Json := do
       ("h2dev", ofRats (cps.map (h2Dev g))),
       ("targets", ofList Json.bool (cps.map (checkTargets g))),
       ("gaindev", ofRats (cps.map (gainDev g))),
-      ("upwindB", ofList ofRats upw)])
+      ("upwindB", ofList ofRats upw),
+      ("Bdiag", ofList ofRats (cps.map (fun cp => (List.range (g.sd cp.prim).nf).map (fun f => cp.B f f))))])
   | _ => throw s!"unknown op {op}"
 
 def main : IO Unit := runPure run
